@@ -190,13 +190,27 @@ type match struct {
 	k int // number of trailing segments consumed
 }
 
+// Reading modes of the layout reference.
+const (
+	// modeStrict demands components that are valid in the sense of the
+	// property's quantifier (Docker tag grammar, 64 lowercase hex, uuid upload
+	// id, shard directory = first two hex characters).
+	modeStrict = iota
+	// modeLenient only demands the shape with a well-formed digest: any
+	// non-empty tag / upload id segment, 64 hex digits of either case, any two
+	// alphanumerics as shard directory.
+	modeLenient
+	// modeShape additionally lets the digest segment be any alphanumeric word
+	// (the extractors that do not return the digest do not validate it:
+	// paths_test.go uses "manifestdigest" and "digest5678").
+	modeShape
+)
+
 // tails matches the end of the segment list against every tail of the layout.
-// strict demands components that are valid in the sense of the property's
-// quantifier; lenient (strict=false) only demands the shape: any non-empty
-// tag/upload id segment, hex digits of either case, any two alphanumerics as
-// shard directory. More than one match is possible only for lenient upload
-// paths whose id or algorithm segment is itself a layout word.
-func tails(segs []string, strict bool) []match {
+// More than one match is possible only for non-strict upload paths whose id or
+// algorithm segment is itself a layout word.
+func tails(segs []string, mode int) []match {
+	strict := mode == modeStrict
 	n := len(segs)
 	at := func(k int) string { // k-th segment from the end, 1-based
 		if k > n {
@@ -205,6 +219,9 @@ func tails(segs []string, strict bool) []match {
 		return segs[n-k]
 	}
 	hexOK := func(s string) bool {
+		if mode == modeShape {
+			return all(s, isAlnum)
+		}
 		if len(s) != 64 {
 			return false
 		}
@@ -282,12 +299,12 @@ func tails(segs []string, strict bool) []match {
 	return out
 }
 
-// parseLenient returns every reading of p as "<something>/<layout tail>".
-// Empty = p does not follow the layout.
-func parseLenient(p string) []*parsed {
+// parseLenient returns every reading of p as "<something>/<layout tail>" in the
+// given non-strict mode. Empty = p does not follow the layout.
+func parseLenient(p string, mode int) []*parsed {
 	segs := strings.Split(p, "/")
 	var out []*parsed
-	for _, m := range tails(segs, false) {
+	for _, m := range tails(segs, mode) {
 		if len(segs)-m.k == 0 || strings.Join(segs[:len(segs)-m.k], "/") == "" {
 			continue // nothing before "/<marker>/..."
 		}
@@ -300,7 +317,7 @@ func parseLenient(p string) []*parsed {
 func parseStrict(p string) *parsed {
 	if rest, ok := strings.CutPrefix(p, blobRoot+"/"); ok {
 		segs := append([]string{"blobs"}, strings.Split(rest, "/")...)
-		for _, m := range tails(segs, true) {
+		for _, m := range tails(segs, modeStrict) {
 			if m.p.Kind == kBlobData && m.k == len(segs) {
 				return m.p
 			}
@@ -327,7 +344,7 @@ func parseStrict(p string) *parsed {
 		}
 	}
 	var found *parsed
-	for _, m := range tails(segs[i:], true) {
+	for _, m := range tails(segs[i:], modeStrict) {
 		if m.p.Kind == kBlobData || m.k != len(segs)-i {
 			continue
 		}
